@@ -300,7 +300,7 @@ pub fn run_edit(c: &mut Ctx, count: usize, quot_heavy: bool) {
             let nn = f.hypergraph.nodes.len();
             let ne = f.hypergraph.edges.len();
             let pick = if quot_heavy {
-                *c.rng.pick(&[0usize, 2, 5, 5, 5, 12, 12, 12, 12, 13, 14, 6])
+                *c.rng.pick(&[0usize, 2, 5, 5, 5, 12, 12, 12, 12, 13, 14, 3])
             } else {
                 // the editing group (C11) makes no quotient calls: those belong to C09
                 match c.rng.below(18) {
